@@ -40,7 +40,8 @@ Example C04_relative_path_is_captured :
 Proof. vm_compute. repeat split. Qed.
 
 (* the name map of the emitted program: every symbol of a scope keeps the name the first compilation gave it, nothing
-   is generated again (for every reserved list; instantiated below with the list of the HLSL exporter) *)
+   is generated again; locals keep theirs when none is reserved or the name of a global variable (which the first
+   compilation guarantees: C15_locals_avoid_reserved_and_generated) (for every reserved list; instantiated below with the list of the HLSL exporter) *)
 Theorem C04_second_generation_names :
   forall reserved es K G,
     NoDup (map e_name es) -> assign_scope reserved es = Some (K, G) ->
@@ -50,7 +51,8 @@ Proof. exact second_generation_scope. Qed.
 Theorem C04_name_map_identity :
   forall reserved scopes locals,
     Forall (Forall (fun e => is_kept reserved e = true)) scopes ->
-    (forall id n, In (id, n) locals -> in_str n reserved = false) ->
+    (forall id n, In (id, n) locals ->
+       in_str n (gvar_names (flat_map (kept_assignments reserved) scopes) ++ reserved) = false) ->
     build reserved scopes locals = Some (flat_map (kept_assignments reserved) scopes, locals).
 Proof. exact build_identity. Qed.
 
